@@ -31,6 +31,7 @@ LEVEL = "model_checking"
 AREA = "locals"
 BUGS = ("setattr", "delattr", "release", "push", "pop", "release_stack", "proxy_early", "spawn_fresh",
         "release_all")
+BUGS_QUICK = ("setattr", "pop", "release", "proxy_early")
 MUTATORS = {"set", "del", "release", "push", "pop", "release_stack", "cleanup", "proxy_mutate"}
 
 
@@ -120,6 +121,35 @@ def refute_bugs(ctx: Ctx, bugs):
     ctx.notes["bug_variants_refuted"] = out
 
 
+def judge_selftest(ctx: Ctx):
+    """The judge must accept a faithfully recorded behaviour and reject it once a single recorded
+    field is corrupted (a judge that accepts everything would make the whole check vacuous)."""
+    ops = [loc.mkop(1, "set", n="x", b=1), loc.mkop(1, "push", b=2), loc.mkop(1, "mkproxy", k="x"),
+           loc.mkop(1, "spawn", child=2), loc.mkop(2, "set", n="x", b=2), loc.mkop(2, "pop"),
+           loc.mkop(1, "proxy_mutate", k="x", v=1), loc.mkop(2, "release")]
+    good = loc.run_trace("copy_context", ops)
+    variants = {"clean": None,
+                "sibling-attr": lambda tl: tl[5]["obs"][0]["get"][0].__setitem__("id", 2),   # ctx 1 sees ctx 2's x
+                "sibling-stack": lambda tl: tl[6]["obs"][0].__setitem__("stack", []),       # ctx 2's pop hit ctx 1
+                "proxy-truthy": lambda tl: tl[8]["obs"][1]["prox"][0].__setitem__("truthy", True),
+                "return": lambda tl: tl[6]["r"].__setitem__("id", 1)}
+    lines, names = [], []
+    for t, (name, f) in enumerate(variants.items()):
+        tl = json.loads(json.dumps(good))
+        if f:
+            f(tl)
+        for ln in tl:
+            ln["t"] = t
+        lines += tl
+        names.append(name)
+    traces0 = ctx.traces
+    rejected = {names[r["t"]]: r["clause"] for r in ctx.judge(AREA, "LocalsTrace", lines)}
+    ctx.traces = traces0  # self-test lines are not evidence about werkzeug
+    ctx.notes["judge_selftest"] = rejected
+    if "clean" in rejected or set(rejected) != set(names) - {"clean"}:
+        raise MachineryError(f"LocalsTrace self-test failed: {rejected}")
+
+
 def run(ctx: Ctx):
     q = ctx.quick
     rng = random.Random(ctx.seed)
@@ -140,11 +170,13 @@ def run(ctx: Ctx):
     # 1. model checking -------------------------------------------------------------------------
     ctx.model_check(AREA, "MCLocals", "MCQ_laws", timeout=600)
     ctx.model_check(AREA, "LocalsImpl", "MCQ_impl", timeout=900)
-    refute_bugs(ctx, BUGS)
+    refute_bugs(ctx, BUGS_QUICK if q else BUGS)
+    judge_selftest(ctx)
     if not q:
         ctx.model_check(AREA, "MCLocals", "MCT_laws", timeout=3000)
         ctx.model_check(AREA, "LocalsImpl", "MCT_impl", timeout=3000)
         ctx.model_check(AREA, "LocalsImpl", "MCT_impl_full", timeout=3000)
+        ctx.model_check(AREA, "LocalsImpl", "MCT_impl_full2", timeout=3000)
     ctx.exhaustive = True
     # 2. spec -> code: tours over the exported transition system ----------------------------------
     jobs = []
@@ -163,7 +195,9 @@ def run(ctx: Ctx):
             ctx.sample({"realisations": list(loc.REALISATIONS), "made": list(made),
                         "ops": [_short(o) for o in ops[:12]], "length": len(ops)})
     ctx.notes["traces"] = len(jobs)
-    judge_jobs(ctx, jobs)
+    chunk = 2400  # behaviours per execute+judge round (bounds memory; realisations stay adjacent)
+    for i in range(0, len(jobs), chunk):
+        judge_jobs(ctx, jobs[i:i + chunk])
 
 
 def _short(o):
